@@ -1,12 +1,11 @@
 (* Properties/C16.v -- diagrams draw the quantities their definitions prescribe.
    PARTIAL.  Model/Diagrams.v holds executable models of the defining statistics of: -hist, -sort,
    obsfcst (lines and shaded bands), qq, scatter points, change, cond, reliability, discrimination, roc,
-   pithist, spreadskill, freq, marginal, error, taylor, performance, economicvalue and timeseries lines; standard line plots
+   pithist, spreadskill, freq, marginal, error, taylor, performance, economicvalue, droc/droc0, murphy, invreliability, bsdecomp and timeseries lines; standard line plots
    (also with -acc) are compared with the -type csv table
    that C12 ties to the Data model.  ./check C16 reads the coordinates back from the matplotlib
    artists and compares them with these models (vm_compute, float instance) on the arrays the real
-   Data object delivers.  Not modelled: droc, murphy,
-   bsdecomp, igncontrib, fss, autocorr/autocov, against, invreliability, meteo, maps,
+   Data object delivers.  Not modelled: igncontrib, fss, autocorr/autocov, against, meteo, maps,
    rank and impact views, the quantile lines of scatter.
    The theorems below are about the BINNING rules of the model (Model/Diagrams.member), for all
    strictly increasing edges and all values: "every valid case falls in exactly one bin". *)
@@ -69,6 +68,13 @@ Theorem C16_probability_equal_to_the_ratio_acts : forall a : R,
   n_leb XR (Fin a) (Fin a) = true /\ n_ltb XR (Fin a) (Fin a) = false.
 Proof. exact econ_equal_acts. Qed.
 
+(* -m murphy: at every probability threshold each case is in exactly one of the three classes (p > e, p < e, p = e) whose
+   terms make up the mean elementary score *)
+Theorem C16_murphy_classes_partition_the_cases : forall e ps,
+  (count_true (murphy_over XR (Fin e) (map (@Fin R) ps)) + count_true (murphy_under XR (Fin e) (map (@Fin R) ps))
+   + count_true (murphy_equal XR (Fin e) (map (@Fin R) ps)))%nat = length ps.
+Proof. exact murphy_partition. Qed.
+
 (* non-vacuity *)
 Example C16_example : increasing [0; 1/2; 1] /\ [0; 1/2; 1] <> [] /\ 0 <= 1 <= last_edge [0; 1/2; 1].
 Proof. unfold last_edge; cbn. repeat split; try lra. discriminate. Qed.
@@ -83,3 +89,4 @@ Print Assumptions C16_obsfcst_bands_pair_symmetric_quantiles.
 Print Assumptions C16_fill_polygon_covers_all_valid_points.
 Print Assumptions C16_hist_shares_add_up_to_100.
 Print Assumptions C16_economic_value_groups_partition_the_cases.
+Print Assumptions C16_murphy_classes_partition_the_cases.
